@@ -8,6 +8,7 @@ import Walrus.Driver.DwarfD
 import Walrus.Driver.ModuleD
 import Walrus.Driver.MapsD
 import Walrus.Driver.GcD
+import Walrus.Driver.SemD
 
 open Walrus.Driver
 
@@ -24,6 +25,10 @@ def dispatch (line : String) : String :=
   | "maps" :: rest => handleMaps rest
   | "gc" :: rest => handleGc rest
   | "used" :: rest => handleUsed rest
+  | "exec" :: rest => handleExec rest
+  | "execw" :: rest => handleExecW rest
+  | "elidetie" :: rest => handleElideTie rest
+  | "execeq" :: rest => handleExecEq rest
   | _ => "bad-request"
 
 partial def loop (h : IO.FS.Stream) (out : IO.FS.Stream) : IO Unit := do
